@@ -160,6 +160,25 @@ def run_case(concepts, case, spec):
     sl = sh.lattice(cap)
     alg = concepts.algorithms
     COL.sample({'table': case, 'n_concepts': sl.n})
+    # on a context nobody has asked anything yet: a traversal is suspended after a few items, a second
+    # one (same or another entry point) runs to its end, then the first one is resumed - nested loops
+    if hash(gen.table_key(case)) % 3 == 0 and not big and len(case['objects']) <= 300 and len(case['properties']) <= 300:
+        fns = [alg.iterconcepts, alg.fast_generate_from, alg.fcbo_dual, alg.get_concepts]
+        for k in range(3):
+            fresh_ctx = ctx if k == 0 else common.build_or_skip(concepts, case)
+            if fresh_ctx is None:
+                break
+            outer, inner = fns[k], fns[(k + hash(gen.table_key(case)) // 3) % 4]
+            g1 = call(outer, fresh_ctx)
+            if g1 is RAISED:
+                continue
+            for _ in range(rng.randint(1, 3)):
+                next(g1, None)
+            g2 = call(inner, fresh_ctx)
+            if g2 is not RAISED:
+                call(list, g2)
+            call(list, g1)
+            COL.count('nested_traversals_on_a_fresh_context')
     results = {}
     for name, fn in [('fast_generate_from', alg.fast_generate_from),
                      ('fcbo.fast_generate_from', alg.fcbo.fast_generate_from),
